@@ -707,7 +707,76 @@ impl CaseSpace for Datagram {
     }
 }
 
+// ---------------------------------------------------------------------------------------
+// one reader, one payload buffer, frames with and without a body in every order
+// ---------------------------------------------------------------------------------------
+
+struct Mixed;
+
+fn mixed_frames() -> Vec<LinkFrame> {
+    vec![
+        LinkFrame::new(0xC4, 1024, 1, &pattern(1, 15)),
+        LinkFrame::new(0xC4, 1024, 1, &pattern(2, 1)),
+        LinkFrame::new(0xF3, 1024, 1, &pattern(0, 250)),
+        LinkFrame::new(0x80, 1024, 1, &[]),  // ACK
+        LinkFrame::new(0xC9, 1024, 1, &[]),  // request link status
+        LinkFrame::new(0xC4, 1024, 1, &[]),  // user data without a body
+        LinkFrame::new(0xC0, 1024, 1, &[]),  // reset link states
+    ]
+}
+
+impl CaseSpace for Mixed {
+    fn name(&self) -> String {
+        "frames-with-and-without-body-in-every-order".to_string()
+    }
+    fn total(&self) -> usize {
+        let n = mixed_frames().len();
+        n * n * n * 2
+    }
+    fn run(&self, index: usize, transcript: bool) -> RunResult {
+        let mut res = RunResult::default();
+        let all = mixed_frames();
+        let n = all.len();
+        let bytewise = index % 2 == 1;
+        let i = index / 2;
+        let frames = vec![all[i % n].clone(), all[(i / n) % n].clone(), all[i / (n * n)].clone()];
+        let mut stream = Vec::new();
+        for f in &frames {
+            stream.extend(f.encode());
+        }
+        let cuts: Vec<usize> = if bytewise { (1..stream.len()).collect() } else { vec![] };
+        let (got, err) = feed(true, false, 2048, &stream, &cuts);
+        res.transitions += 3;
+        res.obs = index as u64 + 292929;
+        let ok = err.is_none() && got.len() == 3 && got.iter().zip(frames.iter()).all(|(a, b)| same(a, b));
+        if transcript {
+            for (k, f) in frames.iter().enumerate() {
+                res.transcript.push(format!("frame {k}: ctrl {:02X}, {} payload octets; delivered with {:?} payload octets", f.ctrl, f.payload.len(), got.get(k).map(|g| g.payload.len())));
+            }
+        }
+        if !ok {
+            let k = got.iter().zip(frames.iter()).position(|(a, b)| !same(a, b)).unwrap_or(got.len());
+            res.violation = Some(Violation::new(
+                "C06.P3",
+                "frame-delivered-with-a-payload-it-did-not-carry",
+                format!(
+                    "frames with {:?} payload octets through one reader ({}): frame {k} delivered with {:?} payload octets, error {err:?}",
+                    frames.iter().map(|f| f.payload.len()).collect::<Vec<_>>(),
+                    if bytewise { "octet by octet" } else { "whole" },
+                    got.get(k).map(|g| g.payload.len())
+                ),
+            ));
+        }
+        res.nontrivial = true;
+        res.model_states.push((i % (n * n)) as u64 + 40000);
+        res
+    }
+}
+
 pub fn replay(name: &str, path: &[usize]) -> Option<RunResult> {
+    if Mixed.name() == name {
+        return Some(Mixed.run(path[0], true));
+    }
     let i = path[0];
     for tier in ["quick", "thorough"] {
         let s = build_roundtrip(tier);
@@ -747,6 +816,7 @@ pub fn check(tier: &str) -> i32 {
     c.cases(&build_resync(tier));
     c.cases(&Truncated);
     c.cases(&Datagram);
+    c.cases(&Mixed);
     c.finish(
         "model_checking",
         "round trip: control bytes x address pairs x payload lengths x 3 payload patterns (incl. embedded start bytes and an embedded valid frame), formatted by the library and by the reference builder (must agree byte for byte) and parsed back by the real link Reader under {whole, per frame, every 2-way split, every 3-way split for frames <= 44 bytes, one byte at a time} in both error modes; buffer wrap-around for every filler length 0..=250 and several read sizes; damage: every 1- and 2-bit error (3-bit for frames <= 44 bytes in the thorough tier) and every burst of 2..=16 bits at every position in frames of 10/27/28/45/292 bytes, followed by a clean frame; discard-mode resynchronisation after every noise string of <= 2 (3) tokens under every 2-way split and bytewise; truncated frame + frames (chunking independence); datagram mode (every split point). Oracle: bit-serial CRC + specification framer with full rescan. non-trivial = the case exercised the parser on a frame; distinct = distinct input",
